@@ -117,7 +117,8 @@ class Registry:
         self.unbounded = set()   # Real-valued fields that may hold Decimal('Infinity')
         self.sig_cids = {}
         self.shared_fields = set()
-        self.heap_key = {}          # element class -> field used as the ordering key of heapq lists of that class   # container-typed fields exempt from the ownership discipline
+        self.heap_key = {}
+        self.ordered = set()      # dict classes whose insertion order is modelled (ghost rank per key)          # element class -> field used as the ordering key of heapq lists of that class   # container-typed fields exempt from the ownership discipline
 
     def klass(self, name, qualname=None, **kw):
         # field types stay strings until first use (forward references between classes are allowed)
